@@ -100,7 +100,10 @@ def case_family(tier: str, seed: int) -> list[dict[str, Any]]:
                      rnd.choices(list(MAND_SVC), weights=[5, 1, 3, 2])[0], rnd.choice(list(OPT_SVC)),
                      rnd.choices(list(BEHAVIORS), weights=[5, 1, 1, 1])[0])
         s = rnd.choice([rnd.randrange(0, 100), rnd.randrange(0, 2**31), rnd.randrange(0, 2**63)])
-        cases.append(make_case(i, s, combo))
+        c = make_case(i, s, combo)
+        if i >= len(CORNERS) and i % 5 != 0:
+            c["hist"]["sweep"] = "short"
+        cases.append(c)
     return cases
 
 
